@@ -640,7 +640,7 @@ func cmdLock(o *Options) int {
 		run := runCheck(o, e, p)
 		for _, ob := range run.Obls {
 			switch ob.Kind {
-			case "ensures", "invariant-entry", "invariant-preserved", "frame":
+			case "ensures", "invariant-entry", "invariant-preserved", "frame", "loop-step", "guarded-by", "split":
 				if ob.Status == "discharged" {
 					lines = append(lines, p+" "+shortName(ob.Name))
 				}
